@@ -61,4 +61,9 @@ theorem scalarOf_isScalar (c : Nat) (h : c < 0x110000) : isScalar (scalarOf c) :
     simp only [Bool.false_eq_true, if_false]
     omega
 
+theorem cpLen_pos (c : Nat) : 1 ≤ cpLen c := by unfold cpLen; split <;> (try split) <;> (try split) <;> omega
+theorem cpLen_le4 (c : Nat) : cpLen c ≤ 4 := by unfold cpLen; split <;> (try split) <;> (try split) <;> omega
+theorem cpLen_le3 (c : Nat) (h : c < 0x10000) : cpLen c ≤ 3 := by unfold cpLen; split <;> (try split) <;> (try split) <;> omega
+
+
 end DiplomatModel.JsStr
